@@ -92,6 +92,12 @@ class Param:
 
 
 @dataclass
+class Func:
+    name: str          # upper-cased function name
+    args: list
+
+
+@dataclass
 class GroupRef:
     kind: str         # qs | vs
     seq: Any
@@ -677,7 +683,18 @@ class Parser:
                     raise Unsupported('SQL parser: bad column reference')
                 return Col(t.val, c.val if c.kind != 'kw' else c.val.lower())
             if self.at_op('('):
-                raise Unsupported(f'SQL function call {t.val}()')
+                # scalar function call: parsed (so that shape checks can see it), encoded only for COALESCE
+                self.take()
+                args = []
+                if not self.at_op(')'):
+                    args.append(self.expr())
+                    while self.at_op(','):
+                        self.take()
+                        args.append(self.expr())
+                if not self.at_op(')'):
+                    raise Unsupported(f'SQL function call {t.val}(: unbalanced')
+                self.take()
+                return Func(t.val.upper(), args)
             return Col(None, t.val)
         if t.kind == 'kw' and t.val in ('EXISTS', 'CASE'):
             raise Unsupported(f'SQL {t.val}')
